@@ -214,7 +214,7 @@ def y1(chk, repo):
     src = dt.args[0] if wrapped and dt.args else dt
     # (b) Array normalises its own dtype
     am = repo.module("ceos_alos2.array")
-    pi = am.func("Array.__post_init__")
+    pi = am.func_any("Array.__post_init__", "Array.__init__")
     normalised = any(isinstance(n, ast.Assign) and norm(n.targets[0]) == "self.dtype" and _is_npdtype_call(n.value) for n in pi.own_nodes())
     # (c) every producer passes an np.dtype
     md = repo.module("ceos_alos2.sar_image.metadata")
